@@ -24,7 +24,8 @@ Proof.
   cbv [m3add m3scale m3outer I3 a00 a01 a02 a10 a11 a12 a20 a21 a22 vx vy vz n0 n1]; rops.
   rewrite !Rmult_0_r, !Rplus_0_r.
   rewrite (diag_root_half x), (diag_root_half y), (diag_root_half z) by nra.
-  destruct (Rltb_spec (2 * (y * x)) 0); destruct (Rltb_spec (2 * (z * x)) 0); destruct (Rltb_spec 0 (2 * (z * y)));
+  destruct (Rltb_spec (2 * (y * x) + 2 * (x * y)) 0); destruct (Rltb_spec (2 * (z * x) + 2 * (x * z)) 0);
+  destruct (Rltb_spec 0 (2 * (z * y) + 2 * (y * z)));
   destruct (Rtotal_order x 0) as [Hx|[Hx|Hx]]; destruct (Rtotal_order y 0) as [Hy|[Hy|Hy]];
   destruct (Rtotal_order z 0) as [Hz|[Hz|Hz]]; subst; try (exfalso; nra);
   repeat (first [ progress (repeat match goal with
